@@ -461,12 +461,12 @@ class Tab(RoundTrip):
                         for sel in (None, [True, False, True], [False, False, False]):
                             yield [fmt, [3], cols, sel, comps]
         # --- seeded random: in the quantifier
-        nr = 900 if tier == "quick" else 12000
+        nr = 2100 if tier == "quick" else 12000
         for i in range(nr):
             fmt = TABLE_FORMATS[i % len(TABLE_FORMATS)]
             yield random_case(rng, fmt, False, True)
         # --- seeded random: outside the quantifier (numeric-looking text, empty text, non-ASCII) — model fidelity
-        nr = 500 if tier == "quick" else 6000
+        nr = 1000 if tier == "quick" else 6000
         for i in range(nr):
             fmt = ("csv", "votable", "fitstab", "hdf5")[i % 4]
             yield random_case(rng, fmt, False, False)
@@ -487,11 +487,11 @@ class Img(RoundTrip):
                 for sel in [None] + masks_small(4):
                     yield [fmt, [2, 2], cols, sel, None]
                 yield [fmt, [2, 2], cols, [True, False, False, True], [0]] if not (fmt == "fitsimg" and k == "s") else [fmt, [2, 2], cols, None, [1]]
-        nr = 500 if tier == "quick" else 8000
+        nr = 1200 if tier == "quick" else 8000
         for i in range(nr):
             yield random_case(rng, IMAGE_FORMATS[i % 2], True, True)
         # finding stratum: integer pixels the BLANK mechanism cannot keep (F6), and out-of-quantifier text
-        nr = 120 if tier == "quick" else 2000
+        nr = 240 if tier == "quick" else 2000
         for i in range(nr):
             yield random_case(rng, IMAGE_FORMATS[i % 2], True, i % 3 == 0, risky=True)
 
@@ -507,7 +507,7 @@ class Sess(Family):
     case_timeout = 60.0
 
     def cases(self, tier, rng):
-        nr = 210 if tier == "quick" else 2100
+        nr = 420 if tier == "quick" else 2100
         for i in range(nr):
             fmt = TABLE_FORMATS[i % len(TABLE_FORMATS)]
             image = fmt in IMAGE_FORMATS and rng.random() < 0.5
